@@ -1,1 +1,521 @@
+/-
+  Property C18 — RPC clients pair each reply with its request under concurrency and reconnects.
+  Model: FFS.Model.RpcClients (Http: SyncRequest's semaphore / id counter / id restoration; Ws: the tables of
+  wsRPCClient with every critical section one atomic step, the reconnect callback and the confirmation handler
+  split where the code releases the lock in between).
+  Every statement is about every reachable state, i.e. about every interleaving of callers, the receive loop and
+  the reconnect callback that the lock discipline (`facts`) allows.
+-/
 import FFS.Model.RpcClients
+namespace FFS.Props.C18
+open FFS.Model.RpcClients FFS.Gen.RpcFacts
+
+/-- the regenerated facts: guards present, every table access under rc.mux and none from a spawned goroutine,
+    all five tables covered -/
+theorem facts :
+    initialSubscribeGuard = true ∧ unconfiguredSkipped = true ∧ stalePendingDropped = true ∧
+    activateChecksConfigured = true ∧ popPendingFirst = true ∧ reconnectFailsCalls = true ∧
+    clearResetsTables = true ∧ callChannelBuffered = true ∧
+    httpSlotBeforeId = true ∧ httpIdAtomic = true ∧ httpCopiesRequest = true ∧
+    wsLockTable.all (fun r => r.2.2.1 && !r.2.2.2) = true ∧
+    (["calls", "pendingSubsByReqID", "activeSubsBySubID", "configuredSubs", "requestCounter"].all fun f =>
+      wsLockTable.any fun r => r.2.1 == f) = true := by decide
+
+/-! ## HTTP client -/
+namespace Http
+open FFS.Model.RpcClients.Http
+
+structure Inv (s : St) : Prop where
+  bound : ∀ l, s.limit = some l → s.inflight.length ≤ l
+  issuedLe : ∀ id ∈ s.issued, id ≤ s.counter
+  issuedNodup : s.issued.Nodup
+  inflightIssued : ∀ p ∈ s.inflight, p.1 ∈ s.issued
+  ownId : ∀ p ∈ s.done, p.2 = p.1
+
+theorem inv_init (limit : Option Nat) : Inv (init limit) :=
+  ⟨by intro l _; simp [init], by simp [init], by simp [init], by simp [init], by simp [init]⟩
+
+theorem filter_length_le {α : Type} (p : α → Bool) (l : List α) : (l.filter p).length ≤ l.length :=
+  List.length_filter_le p l
+
+theorem inv_step (s : St) (op : Op) (h : Inv s) : Inv (step s op) := by
+  cases op with
+  | arrive c => exact ⟨h.bound, h.issuedLe, h.issuedNodup, h.inflightIssued, h.ownId⟩
+  | acquire c =>
+    simp only [step]
+    split
+    · rename_i hc
+      simp only [Bool.and_eq_true] at hc
+      refine ⟨?_, ?_, ?_, ?_, h.ownId⟩
+      · intro l hl
+        have : s.inflight.length < l := by
+          have := hc.2
+          unfold canAcquire at this
+          rw [hl] at this
+          simpa using this
+        simp; omega
+      · intro id hid
+        simp only [List.mem_append, List.mem_singleton] at hid
+        rcases hid with hid | hid
+        · have := h.issuedLe id hid; dsimp only; omega
+        · dsimp only; omega
+      · rw [List.nodup_append]
+        refine ⟨h.issuedNodup, by simp, ?_⟩
+        intro a ha b hb e
+        simp only [List.mem_singleton] at hb
+        have := h.issuedLe a ha
+        omega
+      · intro p hp
+        simp only [List.mem_append, List.mem_singleton] at hp
+        rcases hp with hp | hp
+        · exact List.mem_append_left _ (h.inflightIssued p hp)
+        · subst hp; simp
+    · exact h
+  | cancel c =>
+    simp only [step]
+    split
+    · refine ⟨h.bound, h.issuedLe, h.issuedNodup, h.inflightIssued, ?_⟩
+      intro p hp
+      simp only [List.mem_append, List.mem_singleton] at hp
+      rcases hp with hp | hp
+      · exact h.ownId p hp
+      · subst hp; rfl
+    · exact h
+  | reply beId e =>
+    simp only [step]
+    split
+    · refine ⟨?_, h.issuedLe, h.issuedNodup, ?_, ?_⟩
+      · intro l hl
+        exact Nat.le_trans (filter_length_le _ _) (h.bound l hl)
+      · intro p hp
+        exact h.inflightIssued p (List.mem_filter.mp hp).1
+      · intro p hp
+        simp only [List.mem_append, List.mem_singleton] at hp
+        rcases hp with hp | hp
+        · exact h.ownId p hp
+        · subst hp; rfl
+    · exact h
+
+theorem inv_run (ops : List Op) : ∀ s, Inv s → Inv (run s ops) := by
+  induction ops with
+  | nil => intro s h; simpa [run] using h
+  | cons op ops ih => intro s h; exact ih _ (inv_step s op h)
+
+/-- **Never more requests outstanding at the backend than the configured limit**, under every schedule of
+    arrivals, slot acquisitions, cancellations and replies. -/
+theorem inflight_le_limit (l : Nat) (ops : List Op) : (run (init (some l)) ops).inflight.length ≤ l :=
+  (inv_run ops _ (inv_init _)).bound l (by
+    have : ∀ (ops : List Op) (s : St), s.limit = some l → (run s ops).limit = some l := by
+      intro ops
+      induction ops with
+      | nil => intro s h; simpa [run] using h
+      | cons op ops ih =>
+        intro s h
+        apply ih
+        cases op <;> simp only [step] <;> (try split) <;> (try split) <;> simp_all
+    exact this ops _ rfl)
+
+/-- **Every backend request gets a unique id.** -/
+theorem ids_unique (limit : Option Nat) (ops : List Op) : (run (init limit) ops).issued.Nodup :=
+  (inv_run ops _ (inv_init _)).issuedNodup
+
+/-- **Each caller gets a response carrying its own id, whatever id the backend echoed.** -/
+theorem own_id (limit : Option Nat) (ops : List Op) : ∀ p ∈ (run (init limit) ops).done, p.2 = p.1 :=
+  (inv_run ops _ (inv_init _)).ownId
+
+/-- the reply of the exchange that carried backend id `beId` completes the caller that sent it, and only that one -/
+theorem reply_completes_requester (s : St) (beId echoed c : Nat) (h : s.inflight.find? (·.1 == beId) = some (beId, c)) :
+    (step s (.reply beId echoed)).done = s.done ++ [(c, c)] := by
+  simp [step, h]
+
+end Http
+
+/-! ## WebSocket client -/
+namespace Ws
+open FFS.Model.RpcClients.Ws
+
+def sentOf : Ev → Option Nat
+  | .sentCall id _ => some id
+  | .sentSub id _ => some id
+  | _ => none
+
+/-- ids of the frames written so far, in order -/
+def sentIds (s : St) : List Nat := s.log.filterMap sentOf
+
+structure IdInv (s : St) : Prop where
+  sentLe : ∀ id ∈ sentIds s, id ≤ s.counter
+  sentNodup : (sentIds s).Nodup
+  callsLe : ∀ p ∈ s.calls, p.1 ≤ s.counter
+  pendLe : ∀ p ∈ s.pending, p.1 ≤ s.counter
+  callsNodup : (s.calls.map (·.1)).Nodup
+  pendNodup : (s.pending.map (·.1)).Nodup
+  disjoint : ∀ p ∈ s.calls, ∀ q ∈ s.pending, p.1 ≠ q.1
+
+theorem nodup_map_filter {α : Type} (l : List (Nat × α)) (p : Nat × α → Bool) (h : (l.map (·.1)).Nodup) :
+    ((l.filter p).map (·.1)).Nodup :=
+  List.Nodup.sublist (List.Sublist.map _ List.filter_sublist) h
+
+theorem nodup_snoc {l : List Nat} {x : Nat} (h : l.Nodup) (hx : ∀ y ∈ l, y < x) : (l ++ [x]).Nodup := by
+  rw [List.nodup_append]
+  refine ⟨h, by simp, ?_⟩
+  intro a ha b hb e
+  simp only [List.mem_singleton] at hb
+  have := hx a ha
+  omega
+
+theorem idInv_init (re : Bool) : IdInv (init re) := by
+  refine ⟨?_, ?_, ?_, ?_, ?_, ?_, ?_⟩ <;> simp [init, sentIds]
+
+/-- a step that writes no frame and only removes table entries -/
+theorem idInv_shrink (s s' : St) (h : IdInv s) (e1 : sentIds s' = sentIds s) (e2 : s'.counter = s.counter)
+    (hc : ∀ p ∈ s'.calls, p ∈ s.calls) (hcn : (s'.calls.map (·.1)).Nodup)
+    (hp : ∀ p ∈ s'.pending, p ∈ s.pending) (hpn : (s'.pending.map (·.1)).Nodup) : IdInv s' :=
+  ⟨by rw [e1, e2]; exact h.sentLe, by rw [e1]; exact h.sentNodup,
+   fun p hp' => by rw [e2]; exact h.callsLe p (hc p hp'), fun p hp' => by rw [e2]; exact h.pendLe p (hp p hp'),
+   hcn, hpn, fun p hp' q hq' => h.disjoint p (hc p hp') q (hp q hq')⟩
+
+/-- a step that allocates the next id, writes its frame and registers it in at most one of the two tables -/
+theorem idInv_alloc (s s' : St) (h : IdInv s) (e1 : sentIds s' = sentIds s ++ [s.counter + 1])
+    (e2 : s'.counter = s.counter + 1)
+    (hc : ∀ p ∈ s'.calls, p ∈ s.calls ∨ p.1 = s.counter + 1) (hcn : (s'.calls.map (·.1)).Nodup)
+    (hp : ∀ p ∈ s'.pending, p ∈ s.pending ∨ p.1 = s.counter + 1) (hpn : (s'.pending.map (·.1)).Nodup)
+    (hx : (∀ p ∈ s'.calls, p ∈ s.calls) ∨ (∀ q ∈ s'.pending, q ∈ s.pending)) : IdInv s' := by
+  refine ⟨?_, ?_, ?_, ?_, hcn, hpn, ?_⟩
+  · rw [e1, e2]; intro id hid
+    simp only [List.mem_append, List.mem_singleton] at hid
+    rcases hid with hid | hid
+    · have := h.sentLe id hid; omega
+    · omega
+  · rw [e1]; exact nodup_snoc h.sentNodup (fun y hy => by have := h.sentLe y hy; omega)
+  · intro p hp'; rw [e2]
+    rcases hc p hp' with h1 | h1
+    · have := h.callsLe p h1; omega
+    · omega
+  · intro p hp'; rw [e2]
+    rcases hp p hp' with h1 | h1
+    · have := h.pendLe p h1; omega
+    · omega
+  · intro p hp' q hq' e
+    rcases hx with hx | hx
+    · have hpo := hx p hp'
+      rcases hp q hq' with h1 | h1
+      · exact h.disjoint p hpo q h1 e
+      · have := h.callsLe p hpo; omega
+    · have hqo := hx q hq'
+      rcases hc p hp' with h1 | h1
+      · exact h.disjoint p h1 q hqo e
+      · have := h.pendLe q hqo; omega
+
+theorem sentIds_of_log (s s' : St) (es : List Ev) (hl : s'.log = s.log ++ es) (hes : ∀ e ∈ es, sentOf e = none) :
+    sentIds s' = sentIds s := by
+  have : es.filterMap sentOf = [] := by
+    rw [List.filterMap_eq_nil_iff]; exact hes
+  simp [sentIds, hl, List.filterMap_append, this]
+
+theorem mem_stalePending (s : St) (l : Nat) (p : Nat × Nat) (hp : p ∈ stalePending s l) : p ∈ s.pending := by
+  unfold stalePending at hp
+  split at hp
+  · split at hp
+    · exact (List.mem_filter.mp hp).1
+    · exact hp
+  · exact hp
+
+theorem stalePending_nodup (s : St) (l : Nat) (h : (s.pending.map (·.1)).Nodup) : ((stalePending s l).map (·.1)).Nodup := by
+  unfold stalePending
+  split
+  · split
+    · exact nodup_map_filter _ _ h
+    · exact h
+  · exact h
+
+theorem idInv_allocSub (s : St) (l : Nat) (h : IdInv s) : IdInv (allocSub s l) := by
+  apply idInv_alloc s _ h
+  · simp [sentIds, allocSub, List.filterMap_append, sentOf]
+  · simp [allocSub]
+  · intro p hp; exact Or.inl (by simpa [allocSub] using hp)
+  · simpa [allocSub] using h.callsNodup
+  · intro p hp
+    simp only [allocSub, List.mem_append, List.mem_singleton] at hp
+    rcases hp with hp | hp
+    · exact Or.inl (mem_stalePending s l p hp)
+    · exact Or.inr (by rw [hp])
+  · simp only [allocSub, List.map_append, List.map_cons, List.map_nil]
+    exact nodup_snoc (stalePending_nodup s l h.pendNodup) (fun y hy => by
+      obtain ⟨p, hp, rfl⟩ := List.mem_map.mp hy
+      have := h.pendLe p (mem_stalePending s l p hp); omega)
+  · exact Or.inl (fun p hp => by simpa [allocSub] using hp)
+
+theorem idInv_addInflightSub (s : St) (l : Nat) (initial : Bool) (h : IdInv s) : IdInv (addInflightSub s l initial) := by
+  unfold addInflightSub
+  split
+  · exact h
+  · exact idInv_allocSub s l h
+
+theorem idInv_step (s : St) (op : Op) (h : IdInv s) : IdInv (step s op) := by
+  cases op with
+  | call c =>
+    apply idInv_alloc s _ h
+    · simp [sentIds, step, List.filterMap_append, sentOf]
+    · simp [step]
+    · intro p hp
+      simp only [step, List.mem_append, List.mem_singleton] at hp
+      rcases hp with hp | hp
+      · exact Or.inl hp
+      · exact Or.inr (by rw [hp])
+    · simp only [step, List.map_append, List.map_cons, List.map_nil]
+      exact nodup_snoc h.callsNodup (fun y hy => by
+        obtain ⟨p, hp, rfl⟩ := List.mem_map.mp hy
+        have := h.callsLe p hp; omega)
+    · intro p hp; exact Or.inl (by simpa [step] using hp)
+    · simpa [step] using h.pendNodup
+    · exact Or.inr (fun q hq => by simpa [step] using hq)
+  | cancelCall id =>
+    simp only [step]
+    split
+    · apply idInv_shrink s _ h
+      · exact sentIds_of_log s _ _ rfl (by intro e he; simp at he; subst he; rfl)
+      · rfl
+      · intro p hp; exact (List.mem_filter.mp hp).1
+      · exact nodup_map_filter _ _ h.callsNodup
+      · intro p hp; exact hp
+      · exact h.pendNodup
+    · exact h
+  | subscribe l =>
+    simp only [step]
+    split
+    · exact h
+    · apply idInv_shrink s _ h
+      · simp [sentIds, setSub]
+      · simp [setSub]
+      · intro p hp; simpa [setSub] using hp
+      · simpa [setSub] using h.callsNodup
+      · intro p hp; simpa [setSub] using hp
+      · simpa [setSub] using h.pendNodup
+  | sendSubscribe l => exact idInv_addInflightSub s l true h
+  | reply id r =>
+    simp only [step]
+    split
+    · -- a pending subscription is popped
+      rename_i l _
+      have hpop : IdInv (popSub s id l) := by
+        apply idInv_shrink s _ h
+        · simp [sentIds, popSub]
+        · simp [popSub]
+        · intro p hp; simpa [popSub] using hp
+        · simpa [popSub] using h.callsNodup
+        · intro p hp
+          have hp' : p ∈ s.pending ∧ ¬p.1 = id := by simpa [popSub] using hp
+          exact hp'.1
+        · simpa [popSub] using nodup_map_filter _ _ h.pendNodup
+      cases r with
+      | error =>
+        apply idInv_shrink _ _ hpop
+        · apply sentIds_of_log _ _ (if (getSub s l).waiter then [Ev.subConfirmed l false] else []) (by simp [afterPop])
+          intro e he; split at he <;> simp at he; subst he; rfl
+        · simp [afterPop]
+        · intro p hp; simpa [afterPop] using hp
+        · simpa [afterPop] using hpop.callsNodup
+        · intro p hp; simpa [afterPop] using hp
+        · simpa [afterPop] using hpop.pendNodup
+      | result o =>
+        cases o with
+        | none =>
+          apply idInv_shrink _ _ hpop
+          · apply sentIds_of_log _ _ (if (getSub s l).waiter then [Ev.subConfirmed l false] else []) (by simp [afterPop])
+            intro e he; split at he <;> simp at he; subst he; rfl
+          · simp [afterPop]
+          · intro p hp; simpa [afterPop] using hp
+          · simpa [afterPop] using hpop.callsNodup
+          · intro p hp; simpa [afterPop] using hp
+          · simpa [afterPop] using hpop.pendNodup
+        | some sid =>
+          apply idInv_shrink _ _ hpop
+          · simp [sentIds, afterPop]
+          · simp [afterPop]
+          · intro p hp; simpa [afterPop] using hp
+          · simpa [afterPop] using hpop.callsNodup
+          · intro p hp; simpa [afterPop] using hp
+          · simpa [afterPop] using hpop.pendNodup
+    · split
+      · apply idInv_shrink s _ h
+        · exact sentIds_of_log s _ _ rfl (by intro e he; simp at he; subst he; rfl)
+        · rfl
+        · intro p hp; exact (List.mem_filter.mp hp).1
+        · exact nodup_map_filter _ _ h.callsNodup
+        · intro p hp; exact hp
+        · exact h.pendNodup
+      · apply idInv_shrink s _ h
+        · exact sentIds_of_log s _ _ rfl (by intro e he; simp at he; subst he; rfl)
+        · rfl
+        · intro p hp; exact hp
+        · exact h.callsNodup
+        · intro p hp; exact hp
+        · exact h.pendNodup
+  | activate =>
+    simp only [step]
+    split
+    · exact h
+    · rename_i l sid waiter _
+      by_cases hcfg : (activateChecksConfigured && !s.configured.contains l) = true
+      · simp only [hcfg, if_true]
+        apply idInv_shrink s _ h
+        · apply sentIds_of_log s _ (if waiter then [Ev.subConfirmed l true] else []) (by simp)
+          intro e he; split at he <;> simp at he; subst he; rfl
+        · rfl
+        · intro p hp; exact hp
+        · exact h.callsNodup
+        · intro p hp; exact hp
+        · exact h.pendNodup
+      · simp only [hcfg]
+        apply idInv_shrink s _ h
+        · apply sentIds_of_log s _ (if waiter then [Ev.subConfirmed l true] else []) (by simp [setSub])
+          intro e he; split at he <;> simp at he; subst he; rfl
+        · simp [setSub]
+        · intro p hp; simpa [setSub] using hp
+        · simpa [setSub] using h.callsNodup
+        · intro p hp; simpa [setSub] using hp
+        · simpa [setSub] using h.pendNodup
+  | notify sid =>
+    simp only [step]
+    split
+    · apply idInv_shrink s _ h
+      · exact sentIds_of_log s _ _ rfl (by intro e he; simp only [List.mem_singleton] at he; subst he; rfl)
+      · rfl
+      · intro p hp; exact hp
+      · exact h.callsNodup
+      · intro p hp; exact hp
+      · exact h.pendNodup
+    · apply idInv_shrink s _ h
+      · exact sentIds_of_log s _ _ rfl (by intro e he; simp only [List.mem_singleton] at he; subst he; rfl)
+      · rfl
+      · intro p hp; exact hp
+      · exact h.callsNodup
+      · intro p hp; exact hp
+      · exact h.pendNodup
+  | reconnectClear order =>
+    simp only [step]
+    split
+    · exact h
+    · apply idInv_shrink s _ h
+      · apply sentIds_of_log s _ (s.calls.map fun p => Ev.completed p.2 p.1 false) rfl
+        intro e he
+        obtain ⟨p, _, rfl⟩ := List.mem_map.mp he
+        rfl
+      · rfl
+      · intro p hp; simp at hp
+      · simp
+      · intro p hp; simp at hp
+      · simp
+  | resubscribe =>
+    simp only [step]
+    split
+    · exact h
+    · rename_i l rest _
+      apply idInv_addInflightSub
+      exact ⟨h.sentLe, h.sentNodup, h.callsLe, h.pendLe, h.callsNodup, h.pendNodup, h.disjoint⟩
+  | unsubscribe l =>
+    simp only [step]
+    apply idInv_shrink s _ h
+    · rfl
+    · rfl
+    · intro p hp; exact hp
+    · exact h.callsNodup
+    · intro p hp
+      dsimp only at hp
+      split at hp
+      · exact (List.mem_filter.mp hp).1
+      · exact hp
+    · dsimp only
+      split
+      · exact nodup_map_filter _ _ h.pendNodup
+      · exact h.pendNodup
+
+theorem idInv_reach {re : Bool} {s : St} (h : Reach re s) : IdInv s := by
+  induction h with
+  | init => exact idInv_init re
+  | step op _ _ ih => exact idInv_step _ op ih
+
+/-- **Every request written to the socket carries an id no earlier request carried**, under every schedule. -/
+theorem ids_unique {re : Bool} {s : St} (h : Reach re s) : (sentIds s).Nodup := (idInv_reach h).sentNodup
+
+theorem find_of_mem_nodup {α : Type} (l : List (Nat × α)) (h : (l.map (·.1)).Nodup) (id : Nat) (c : α) (hm : (id, c) ∈ l) :
+    l.find? (·.1 == id) = some (id, c) := by
+  induction l with
+  | nil => cases hm
+  | cons p t ih =>
+    simp only [List.map_cons, List.nodup_cons] at h
+    simp only [List.mem_cons] at hm
+    rcases hm with rfl | hm
+    · simp
+    · have hne : (p.1 == id) = false := by
+        have : p.1 ≠ id := fun e => h.1 (by rw [e]; exact List.mem_map.mpr ⟨(id, c), hm, rfl⟩)
+        simpa using this
+      rw [List.find?_cons, hne]
+      exact ih h.2 hm
+
+/-- **Reply pairing.** In any reachable state, a reply frame with id `id` is handed to the caller whose request
+    carried `id` — exactly that caller, with the outcome in the frame — and the entry is gone, so a duplicate of the
+    frame completes nobody. The order in which replies arrive plays no role. -/
+theorem reply_goes_to_requester {re : Bool} {s : St} (h : Reach re s) (id c : Nat) (r : Reply) (hc : (id, c) ∈ s.calls) :
+    (step s (.reply id r)).log = s.log ++ [.completed c id (match r with | .result _ => true | .error => false)] ∧
+    (step s (.reply id r)).calls = s.calls.filter (·.1 != id) ∧
+    (∀ c', (id, c') ∉ (step s (.reply id r)).calls) := by
+  have inv := idInv_reach h
+  have hnp : s.pending.find? (·.1 == id) = none := by
+    rw [List.find?_eq_none]
+    intro q hq
+    have := inv.disjoint (id, c) hc q hq
+    simpa using fun e => this e.symm
+  have hf := find_of_mem_nodup s.calls inv.callsNodup id c hc
+  simp only [step, hnp, hf]
+  refine ⟨rfl, trivial, ?_⟩
+  intro c' hmem
+  have := (List.mem_filter.mp hmem).2
+  simp at this
+
+/-- a reply whose id answers no outstanding request (unknown, stale, duplicate) changes no table and completes nobody -/
+theorem unknown_reply_ignored (s : St) (id : Nat) (r : Reply)
+    (h1 : ∀ p ∈ s.pending, p.1 ≠ id) (h2 : ∀ p ∈ s.calls, p.1 ≠ id) :
+    step s (.reply id r) = { s with log := s.log ++ [.dropped] } := by
+  have e1 : s.pending.find? (·.1 == id) = none := by
+    rw [List.find?_eq_none]; intro q hq; simpa using h1 q hq
+  have e2 : s.calls.find? (·.1 == id) = none := by
+    rw [List.find?_eq_none]; intro q hq; simpa using h2 q hq
+  simp [step, e1, e2]
+
+/-- **Reconnect fails every outstanding call.** With reconnection enabled, the first half of the reconnect callback
+    hands an error to every caller whose request was outstanding, and leaves no call, no pending request and no
+    active server id of the old connection behind. -/
+theorem reconnect_fails_all (s : St) (order : List Nat) (hre : s.reconnectEnabled = true) :
+    let s' := step s (.reconnectClear order)
+    (∀ p ∈ s.calls, Ev.completed p.2 p.1 false ∈ s'.log) ∧ s'.calls = [] ∧ s'.pending = [] ∧ s'.active = [] ∧
+    s'.resubQueue = order.filter s.configured.contains := by
+  simp only [step, hre, Bool.not_true, Bool.false_eq_true, if_false]
+  refine ⟨?_, trivial, trivial, trivial, trivial⟩
+  intro p hp
+  exact List.mem_append_right _ (List.mem_map.mpr ⟨p, hp, rfl⟩)
+
+/-- the callback's loop body issues one eth_subscribe for the next subscription of the queue if it is still
+    configured, and nothing for one that has been unsubscribed meanwhile -/
+theorem resubscribe_one (s : St) (l : Nat) (rest : List Nat) (hq : s.resubQueue = l :: rest) :
+    let s' := step s .resubscribe
+    s'.resubQueue = rest ∧
+    ((l ∈ s.configured → s'.log = s.log ++ [.sentSub (s.counter + 1) l] ∧ (s.counter + 1, l) ∈ s'.pending) ∧
+     (l ∉ s.configured → s'.log = s.log ∧ s'.pending = s.pending)) := by
+  simp only [step, hq, addInflightSub, skipSub, facts.2.1, Bool.false_and, Bool.false_or, Bool.true_and]
+  by_cases hc : l ∈ s.configured
+  · have : s.configured.contains l = true := by simpa using hc
+    simp [this, hc, allocSub]
+  · have : s.configured.contains l = false := by simpa using hc
+    simp [this, hc]
+
+/-- non-vacuity: three callers, replies out of order with a duplicate, a reconnect with one call outstanding -/
+example :
+    let s := run (init true) [.call 1, .call 2, .call 3, .reply 2 (.result none), .reply 2 (.result none),
+      .reply 1 .error, .reconnectClear []]
+    s.log = [.sentCall 1 1, .sentCall 2 2, .sentCall 3 3, .completed 2 2 true, .dropped, .completed 1 1 false,
+             .completed 3 3 false] ∧ s.calls = [] := by
+  decide
+
+end Ws
+end FFS.Props.C18
